@@ -120,6 +120,19 @@ func writeSrcFacts(outdir string) error {
 	consts := map[string]string{}
 	type site struct{ fn, kind string }
 	var panics, ranges []site
+	writes := map[string]bool{}    // "file|function|lhs" for writes through a receiver, a parameter or a package variable
+	globals := map[string]bool{}   // package-level variables
+	for _, f := range files {
+		for _, d := range f.Decls {
+			if gd, ok := d.(*ast.GenDecl); ok && gd.Tok == token.VAR {
+				for _, sp := range gd.Specs {
+					for _, n := range sp.(*ast.ValueSpec).Names {
+						globals[n.Name] = true
+					}
+				}
+			}
+		}
+	}
 	wrappers := map[string][]string{}
 	for _, f := range files {
 		for _, d := range f.Decls {
@@ -146,8 +159,59 @@ func writeSrcFacts(outdir string) error {
 				if x.Body == nil {
 					continue
 				}
+				// names through which state shared with the caller can be reached: receiver and parameters
+				shared := map[string]bool{}
+				if x.Recv != nil {
+					for _, fl := range x.Recv.List {
+						for _, nm := range fl.Names {
+							shared[nm.Name] = true
+						}
+					}
+				}
+				for _, fl := range x.Type.Params.List {
+					for _, nm := range fl.Names {
+						shared[nm.Name] = true
+					}
+				}
+				fileName := filepath.Base(fset.Position(x.Pos()).Filename)
+				noteWrite := func(lhs ast.Expr) {
+					root, depth := rootIdent(lhs)
+					if root == "" {
+						return
+					}
+					if (shared[root] && depth > 0) || (globals[root] && !shared[root]) {
+						writes[fileName+"|"+fn+"|"+exprString(lhs)] = true
+					}
+				}
 				ast.Inspect(x.Body, func(n ast.Node) bool {
 					switch y := n.(type) {
+					case *ast.AssignStmt:
+						if y.Tok != token.DEFINE {
+							for _, l := range y.Lhs {
+								noteWrite(l)
+							}
+						}
+					case *ast.IncDecStmt:
+						noteWrite(y.X)
+					case *ast.ExprStmt:
+						// mutation by call: delete/clear/copy builtins, in-place sorts, map copies, sync.Map writes
+						if ce, ok := y.X.(*ast.CallExpr); ok && len(ce.Args) > 0 || ok && isSyncWrite(ce) {
+							name := exprString(ce.Fun)
+							switch {
+							case name == "delete" || name == "clear" || name == "copy" || name == "maps.Copy" ||
+								strings.HasPrefix(name, "sort.") || strings.HasPrefix(name, "slices.Sort") || name == "slices.Reverse":
+								root, _ := rootIdent(ce.Args[0])
+								if shared[root] || globals[root] {
+									writes[fileName+"|"+fn+"|"+name+"("+exprString(ce.Args[0])+")"] = true
+								}
+							case isSyncWrite(ce):
+								sel := ce.Fun.(*ast.SelectorExpr)
+								root, _ := rootIdent(sel.X)
+								if shared[root] || globals[root] {
+									writes[fileName+"|"+fn+"|"+name] = true
+								}
+							}
+						}
 					case *ast.CallExpr:
 						if id, ok := y.Fun.(*ast.Ident); ok && (id.Name == "panic" || id.Name == "assert") {
 							panics = append(panics, site{fn, id.Name})
@@ -210,8 +274,58 @@ func writeSrcFacts(outdir string) error {
 	}
 	b.WriteString(" ].\n")
 	_ = ranges
+	// writes through receivers, parameters and package variables, in the files Validate,
+	// ApplyDefaults, Marshal and CloneSchemas run through; sync.Map method calls on package variables
+	wkeys := make([]string, 0, len(writes))
+	for k := range writes {
+		wkeys = append(wkeys, k)
+	}
+	sort.Strings(wkeys)
+	b.WriteString("\nDefinition src_shared_writes : list str :=\n  [ ")
+	for i, k := range wkeys {
+		if i > 0 {
+			b.WriteString(";\n    ")
+		}
+		b.WriteString(coqStr(k))
+	}
+	b.WriteString(" ].\n")
 	os.MkdirAll(outdir, 0o755)
 	return os.WriteFile(filepath.Join(outdir, "SourceFacts.v"), []byte(b.String()), 0o644)
+}
+
+// rootIdent strips selectors, indexes, stars and parentheses; depth counts what was stripped
+// (a plain identifier assignment `x = ...` to a parameter rebinds the local copy: depth 0).
+func rootIdent(e ast.Expr) (string, int) {
+	depth := 0
+	for {
+		switch x := e.(type) {
+		case *ast.Ident:
+			return x.Name, depth
+		case *ast.SelectorExpr:
+			e = x.X
+		case *ast.IndexExpr:
+			e = x.X
+		case *ast.StarExpr:
+			e = x.X
+		case *ast.ParenExpr:
+			e = x.X
+		default:
+			return "", depth
+		}
+		depth++
+	}
+}
+
+func isSyncWrite(ce *ast.CallExpr) bool {
+	sel, ok := ce.Fun.(*ast.SelectorExpr)
+	if !ok {
+		return false
+	}
+	switch sel.Sel.Name {
+	case "Store", "LoadOrStore", "Delete", "Swap", "CompareAndSwap", "LoadAndDelete", "Clear":
+		return true
+	}
+	return false
 }
 
 func recvName(e ast.Expr) string {
@@ -240,6 +354,14 @@ func exprString(e ast.Expr) string {
 		return "map[" + exprString(x.Key) + "]" + exprString(x.Value)
 	case *ast.InterfaceType:
 		return "any"
+	case *ast.IndexExpr:
+		return exprString(x.X) + "[" + exprString(x.Index) + "]"
+	case *ast.ParenExpr:
+		return "(" + exprString(x.X) + ")"
+	case *ast.BasicLit:
+		return x.Value
+	case *ast.CallExpr:
+		return exprString(x.Fun) + "(..)"
 	}
 	return fmt.Sprintf("%T", e)
 }
